@@ -178,6 +178,10 @@ def holds(test, truth):
             return _elementwise(test.args[0], True)
         if name in ANY_FUNCS and not truth and test.args:
             return _elementwise(test.args[0], False)
+    if isinstance(test, (ast.Name, ast.Attribute, ast.Subscript, ast.Call)):
+        # bare truthiness: `if flag:` / `if not arr.flags.writeable:`
+        return [Atom(test, "truthy" if truth else "falsy",
+                     ast.Constant(value=None), test)]
     return []
 
 
